@@ -1,3 +1,4 @@
+pub mod dump;
 pub mod gram;
 pub mod pool;
 pub mod real;
